@@ -272,6 +272,30 @@ ADDENDA = {
     "C19": ("; probe interpretation of the integer helpers against the C definitions; table-function identity by name or by interpretation; injective LUT identity",
             " Also: the doubling multiplies / rounding divide equal gemmlowp on sign x remainder-class probe grids (not over the whole domain); sigmoid / tanh / exp / sqrt tables are generated from the real function (1e-9 on probes); round_away_zero is half away from zero; the LUT equivalence id is keyed by the whole table."),
 }
+# clauses added after the third round (generic lints with reviewed exemption tables, shared clauses, derived rules)
+ADDENDA3 = {
+    "C02": "; IFM2 broadcast independence, aligned arena total and Transpose strides (j, partly shared with C06-c / C05-c)",
+    "C03": "; derived comparison of the rows a stripe's IFM box claims with the rows reserved for it; unique identity of input clones written by decomposed operators; unrestricted write protection of multi-consumer inputs; clauses shared with C15-e and C12-d",
+    "C04": "; None-skip loops; no memoisation of access-set builders (shared with C14-a)",
+    "C05": "; duplicate-branch lint",
+    "C06": "; truth tests of optional numeric fields; member-for-member copy families; module-wide axis homogeneity; independent IFM2 broadcast comparisons; zero-point register provenance by interpretation",
+    "C07": "; output buffer bound and zero-run cursor contiguity evaluated from the clang AST; per-core encoder arguments (shared with C08-c); _xy / _hw unpack order",
+    "C08": "; per-core encoder arguments; unconditional value_id refresh after an in-place filter rewrite; clauses shared with C07-f and C09-b",
+    "C09": "; reduced form and rounding by interpretation; scale quotient direction over all modules; original-type selection of the float32 product; elision of scale registers (shared with C06-e)",
+    "C10": "; required conjuncts of the cascadability guard; rolling-buffer storage shape; member families and module-wide axis homogeneity",
+    "C11": "; element-type bit widths; quantifier and conjuncts of the slice-read fold; truth tests of optional numeric fields; None-skip loops; activation fusing (shared with C16-e)",
+    "C12": "; duplicate-branch lint; aligned arena total (shared with C05-c)",
+    "C13": "; tensor dimensions as np.int32 in the NEP-50 taint; guarded per-core range lookups; index-space agreement of cascade bounds; mutated-iteration and None-skip lints",
+    "C14": "; grow-only compression cache; inline set iteration handed to other functions; graph / file name must not reach written names",
+    "C15": "; exhaustive interpretation of the accumulator-type function over block type x IFM bits x scaling; recorded block provenance; traversal heuristic agreement with the weight compressor",
+    "C16": "; module-wide axis homogeneity of the graph optimiser (NHWC index conventions); positional option order of optimise_graph; verdict accumulation inside looping constraints",
+    "C17": "; stream size by interpretation; accelerator map rows (shared with C15-c); CLI option plumbing (shared with C18-c)",
+    "C18": "; literal in place of a CLI option inside main(); cwd-independent configuration directory; default round trip of enum-valued keys (shared with C13-b)",
+    "C19": "; polynomial pairing of quantised codes with their zero points; shift guard / use agreement",
+}
+for _pid, _t3 in ADDENDA3.items():
+    _tech, _text, _note, _ref = CLAIMS[_pid]
+    CLAIMS[_pid] = (_tech + _t3, _text, _note, _ref)
 for _pid, (_t, _x) in ADDENDA.items():
     _tech, _text, _note, _ref = CLAIMS[_pid]
     CLAIMS[_pid] = (_tech + _t, _text + _x, _note, _ref)
